@@ -74,6 +74,18 @@ pub fn recursive_program(idx: u64) -> Program {
                 p.funcs.push(h);
                 p.funcs.push(func("main", vec![inc(m)]));
             } else {
+                if idx % 8 == 0 {
+                    // two interrupt handlers, each the only caller of a function of its own
+                    let cf = p.funcs.len();
+                    p.funcs.push(func("count_frame", vec![inc(r)]));
+                    p.funcs.push(func("count_tick", vec![inc(m)]));
+                    let mut h1 = func("nmi", vec![call(cf)]);
+                    h1.interrupt = true;
+                    p.funcs.push(h1);
+                    let mut h2 = func("irq", vec![call(cf + 1)]);
+                    h2.interrupt = true;
+                    p.funcs.push(h2);
+                }
                 p.funcs.push(func("main", vec![call(me), inc(m)]));
             }
         }
